@@ -222,6 +222,23 @@ def o4_o5(prog, rep):
         rep.check(okw, "O5-stale", "after the error/hang-up widening the same entry's readiness tests run before the scan moves on", wid[0].where,
                   "a path leads from the widening to the cursor step without passing the POLLIN/POLLOUT tests: a descriptor that only hung up or failed "
                   "is skipped for ever although a callback is registered for it", function=g.name, construct="widen-order")
+    # clearbit(pos, bit) may vacate slot pos and move the last entry into it: whatever is needed from fds[pos] (the descriptor
+    # number that selects the record to hand out) is read before the call, never after
+    for f2 in u.funcs:
+        if f2.file != u.path or f2.name == "clearbit":
+            continue
+        for c in f2.calls("clearbit"):
+            idx = norm(c.arg(0))
+            later = []
+            reach = f2.reach_from(c.block.id)
+            for e in f2.all_elems():
+                if e.cls == "ArraySubscriptExpr" and norm(e.kid(0))[0] == "v" and norm(e.kid(0))[1] == "fds" and norm(e.kid(1)) == idx:
+                    if (e.block.id == c.block.id and e.i > c.i) or (e.block.id in reach and e.block.id != c.block.id and not any(
+                            ir.step(m) and ir.step(m)[1] == idx and m.block.id in reach for m in f2.all_elems())):
+                        later.append(e)
+            rep.check(not later, "O5-stale", "%s: fds[%s] is not read again after clearbit may have moved another entry into the slot" % (f2.name, show(idx)), c.where,
+                      "read at %s: after the call the slot may hold a different descriptor, so the record handed out (and cleared) would be another descriptor's" % [e.loc for e in later[:2]],
+                      function=f2.name, construct="after-clearbit")
     # selection: the scan dispatches only under a set revents bit
     for ld in [e for e in g.all_elems() if e.is_assign and e.op == "=" and fieldname(norm(e.kid(1))) in ("reader", "writer")]:
         fld = fieldname(norm(ld.kid(1)))
@@ -394,6 +411,8 @@ def run(tier):
         from . import c13
         c13.h1(prog, rep)
         c13.h2_h3(prog, rep)
+        c13.h4(prog, rep)
+        c13.h5(prog, rep)
         # a registration that failed must leave nothing registered (no slot, no pollfd entry): shared with C14
         from . import c14
         c14.register_atomic_rule(prog, rep)
